@@ -195,6 +195,14 @@ func (s *Scn) GenContractTx(view *simnode.Node) (*types.Transaction, string) {
 		switch c.Kind + "." + method {
 		case "timelock.transfer", "multisig.send", "wasm:erc20.transfer", "wasm:sharedtoken.transferTo":
 			args = [][]byte{other.Addr.Bytes(), new(big.Int).Div(st.GetBalance(c.Addr), big.NewInt(int64(1+t.Choose("ctx.share", 3)))).Bytes()}
+			switch t.Choose("ctx.dest", 8) {
+			case 0:
+				args[0] = c.Addr.Bytes() // the contract pays itself
+			case 1:
+				if len(s.Contracts) > 1 {
+					args[0] = s.Contracts[t.Choose("ctx.destcontract", len(s.Contracts))].Addr.Bytes() // another contract
+				}
+			}
 			if t.Choose("ctx.overdraw", 4) == 0 {
 				args[1] = new(big.Int).Add(st.GetBalance(c.Addr), big.NewInt(1)).Bytes()
 			}
@@ -202,6 +210,9 @@ func (s *Scn) GenContractTx(view *simnode.Node) (*types.Transaction, string) {
 			args = [][]byte{other.Addr.Bytes()}
 		case "multisig.push":
 			args = [][]byte{other.Addr.Bytes(), st.GetBalance(c.Addr).Bytes()}
+			if t.Choose("ctx.pushself", 6) == 0 {
+				args[0] = c.Addr.Bytes()
+			}
 		case "oraclevoting.sendVoteProof":
 			args = [][]byte{make([]byte, 32)}
 		case "oraclevoting.sendVote":
